@@ -290,7 +290,7 @@ theorem own_stepResolve (m : M) (c i : Nat) (h : Own roots m) (hf : Fulfilled m.
     · rename_i hrc'
       have hrc : r.rc = 0 := by omega
       have hget : rq m.cores c i = some r := hget
-      generalize harg : (match (m.core c).st with | .fulfilled v => v | _ => (0 : Int)) = arg
+      generalize harg : (m.core c).st.val = arg
       have hnoj : r.settler = true → ¬ 1 ≤ r.jc := fun hs hj => fulfilled_not_rejOK hf (h.c.jcOK c i r hget hs hj)
       obtain ⟨r', hr'⟩ : ∃ r', r' = ({ r with rc := r.rc + 1 } : Req) := ⟨_, rfl⟩
       have hk' : r'.kind = r.kind := by rw [hr']
@@ -371,5 +371,119 @@ theorem own_stepResolve (m : M) (c i : Nat) (h : Own roots m) (hf : Fulfilled m.
         split
         · exact hb
         · exact own_resolverOn (own_setData hb htgt) htgt
+
+theorem own_pushWalkRej {m : M} {d n : Nat} (h : Own roots m) (hr : RejOK m.cores d) :
+    Own roots { m with stack := walk Act.rejectReq d n ++ m.stack } :=
+  own_stack _ h (stackOK_append (stackOK_walk_rej _ hr) h.s) (stackData_append (stackData_walk_rej _ _) h.dStack)
+
+theorem own_stepReject (m : M) (c i : Nat) (h : Own roots m) (hrej : RejOK m.cores c) : Own roots (stepReject m c i) := by
+  unfold stepReject
+  simp only
+  split
+  · exact h
+  · rename_i r hget
+    split
+    · exact h
+    · rename_i hjc'
+      have hjc : r.jc = 0 := by omega
+      have hget : rq m.cores c i = some r := hget
+      generalize he : (m.core c).st.exc = e
+      have hnor : r.settler = true → ¬ 1 ≤ r.rc := fun hs hj => fulfilled_not_rejOK (h.c.rcOK c i r hget hs hj) hrej
+      obtain ⟨r', hr'⟩ : ∃ r', r' = ({ r with jc := r.jc + 1 } : Req) := ⟨_, rfl⟩
+      have hk' : r'.kind = r.kind := by rw [hr']
+      have hch' : r'.chain = r.chain := by rw [hr']
+      have hrc' : r'.rc = r.rc := by rw [hr']
+      have hjc1 : r'.jc = r.jc + 1 := by rw [hr']
+      rw [← hr']
+      clear hr'
+      have u := reqUpd_setReq m.cores c i r r' hget
+      have fwd := u.fwd hk' hch' (by omega) (by omega)
+      have hb : Own roots (m.setCore c (setReq (m.core c) i r')) :=
+        own_setReq h hget hk' hch' (by omega) (by omega) (fun hs hj => h.c.rcOK c i r hget hs (by omega)) (fun _ _ => hrej)
+      have hget1 : rq (m.setCore c (setReq (m.core c) i r')).cores c i = some r' := u.new
+      have hrej1 : RejOK (m.setCore c (setReq (m.core c) i r')).cores c := rejOK_fwd (u.st c) fwd hrej
+      cases hk : r.kind with
+      | user cb ret rej =>
+        have hu : r.isUser = true := isUser_of_kind hk
+        have hu' : r'.isUser = true := by rw [isUser_congr hk']; exact hu
+        have hbound : r.chain < (m.setCore c (setReq (m.core c) i r')).cores.length := by
+          have := hb.c.bound c i _ hget1 (user_settler hu'); rw [hch'] at this; exact this
+        have hpend : ¬ (r.rethrows = true ∧ 1 ≤ r.jc) → Pending (m.setCore c (setReq (m.core c) i r')).cores r.chain := fun hR =>
+          pending_of_st (u.st _) (holder_chain_pending h.c hget hu (fun hh => hnor (user_settler hu) hh.2) (fun hh => hnor (user_settler hu) hh.2) hR)
+        have hdoomed : ¬ (r.rethrows = true ∧ 1 ≤ r.jc) → RejOK (m.setCore c (setReq (m.core c) i r')).cores r.chain := fun hR =>
+          Or.inr ⟨hpend hR, c, i, r', hget1, hu', hch', by omega⟩
+        simp only
+        cases rej with
+        | rethrow =>
+          simp only
+          refine own_rejectAndWalk hb hbound (hpend (by omega)) ?_
+          intro c0 i0 r0 h0 hu0 hc0
+          have := holder_unique hb.c hget1 hu' h0 hu0 (by rw [hc0, hch'])
+          subst this
+          exact Or.inl ⟨by unfold Req.rethrows; rw [hk', hk], by omega⟩
+        | ignore =>
+          have hnr : ¬ (r.rethrows = true ∧ 1 ≤ r.jc) := by omega
+          cases ret with
+          | value d => exact own_pushWalkRej hb (hdoomed hnr)
+          | void => exact hb
+          | promise q => exact own_pushWalkRej hb hrej1
+        | custom cb' =>
+          have hnr : ¬ (r.rethrows = true ∧ 1 ≤ r.jc) := by omega
+          cases ret with
+          | value d => simp only; exact own_congr (by rfl) (by rfl) (by rfl) (own_pushWalkRej hb (hdoomed hnr))
+          | void => exact own_log _ hb
+          | promise q => simp only; exact own_congr (by rfl) (by rfl) (by rfl) (own_pushWalkRej hb hrej1)
+      | chainer =>
+        have hc : r.isChainer = true := isChainer_of_kind hk
+        have hc' : r'.isChainer = true := by rw [isChainer_congr hk']; exact hc
+        simp only
+        have hp0 : Pending m.cores r.chain := chainer_chain_pending h.c hget hc (hnor (chainer_settler hc)) (by omega)
+        refine own_rejectAndWalk hb ?_ (pending_of_st (u.st _) hp0) ?_
+        · have := hb.c.bound c i _ hget1 (chainer_settler hc'); rw [hch'] at this; exact this
+        · intro c0 i0 r0 h0 hu0 hc0
+          exact Or.inr ⟨c, i, r', hget1, hc', hch', by omega⟩
+      | allInput d idx =>
+        have hd : d < m.datas.length := by have := h.dReq c i r hget; unfold DataIn at this; rw [hk] at this; exact this
+        have htgt : (m.data d).target ∈ roots := h.dTarget _ (data_mem m d hd)
+        simp only
+        split
+        · exact hb
+        · exact own_rejectionOn (own_setData hb htgt) htgt
+      | anyInput d =>
+        have hd : d < m.datas.length := by have := h.dReq c i r hget; unfold DataIn at this; rw [hk] at this; exact this
+        have htgt : (m.data d).target ∈ roots := h.dTarget _ (data_mem m d hd)
+        simp only
+        split
+        · exact hb
+        · exact own_rejectionOn (own_setData hb htgt) htgt
+
+theorem own_step (m : M) (h : Own roots m) : Own roots (step m) := by
+  rw [step_eq]
+  split
+  · exact h
+  · rename_i p r rest hst
+    have ha := h.s (.attach p r) (by rw [hst]; exact List.mem_cons_self)
+    have hd := h.dStack (.attach p r) (by rw [hst]; exact List.mem_cons_self)
+    have hpop : Own roots { m with stack := rest } := own_stack rest h (stackOK_cons (hst ▸ h.s)) (stackData_cons (hst ▸ h.dStack))
+    refine own_thenOn hpop ⟨ha.2.1, ha.2.2⟩ ?_ ?_ hd
+    · intro hu; have := user_settler hu; rw [ha.1] at this; cases this
+    · intro hc; have := chainer_settler hc; rw [ha.1] at this; cases this
+  · rename_i c i rest hst
+    have ha := h.s (.resolveReq c i) (by rw [hst]; exact List.mem_cons_self)
+    have hpop : Own roots { m with stack := rest } := own_stack rest h (stackOK_cons (hst ▸ h.s)) (stackData_cons (hst ▸ h.dStack))
+    exact own_stepResolve _ c i hpop ha
+  · rename_i c i rest hst
+    have ha := h.s (.rejectReq c i) (by rw [hst]; exact List.mem_cons_self)
+    have hpop : Own roots { m with stack := rest } := own_stack rest h (stackOK_cons (hst ▸ h.s)) (stackData_cons (hst ▸ h.dStack))
+    exact own_stepReject _ c i hpop ha
+
+theorem own_run (fuel : Nat) (m : M) (h : Own roots m) : Own roots (run fuel m) := by
+  induction fuel generalizing m with
+  | zero => exact h
+  | succ f ih =>
+    unfold run
+    split
+    · exact h
+    · exact ih _ (own_step m h)
 
 end Pistache.Promise
